@@ -20,6 +20,10 @@ func (s *Supervisor) NewObjectEntityFromConfig(config string) (entity *ObjectEnt
   ensures err == nil ==> entity != nil && fresh(entity) && entity.spec != nil && entity.spec.sid == sidOf(config) && entity.spec.meta != nil && entity.spec.meta.Kind == kindOfYaml(config)
   ensures err != nil ==> entity == nil
 
+func (s *Spec) Name() (n string)
+  requires s != nil && s.meta != nil
+  ensures n == s.meta.Name
+
 func (e *ObjectEntity) Spec() (s *Spec)
   requires e != nil
   ensures s == e.spec
